@@ -728,7 +728,24 @@ func (vf *VerifyFunc) yield(st *State) {
 		return
 	}
 	for _, m := range vf.fc.Relies {
+		var before string
+		var key, as, ref string
+		if vf.fc.Grows[m.Src] {
+			if c, ok := m.E.(ECall); ok {
+				if g, ok2 := vf.eng.cs.Ghosts[c.Fun]; ok2 && g.Field && len(g.Params) == 2 && specSort(g.Result) == SBool && len(c.Args) == 1 {
+					ev := &evaluator{st: st, vf: vf, env: vf.env, pkgPath: vf.fc.PkgPath}
+					ref = ev.toSort(ev.eval(c.Args[0]), specSort(g.Params[0]))
+					key, as = "G:"+c.Fun, ghostFieldSort(g)
+					before = sel(st.heapGet(key, as), ref)
+				}
+			}
+		}
 		vf.havocLoc(st, vf.fc, m, vf.env)
+		if before != "" {
+			after := sel(st.heapGet(key, as), ref)
+			ks := specSort(vf.eng.cs.Ghosts[m.E.(ECall).Fun].Params[1])
+			st.assume("(forall ((gk " + ks + ")) (! (=> (select " + before + " gk) (select " + after + " gk)) :pattern ((select " + after + " gk))))")
+		}
 	}
 }
 
@@ -752,6 +769,14 @@ func (vf *VerifyFunc) selectOp(st *State, fr *Frame, x *ssa.Select) *Val {
 	st.assume("(and (<= " + lo + " " + idx + ") (< " + idx + " " + fmt.Sprint(len(x.States)) + "))")
 	if x.Blocking {
 		vf.yield(st)
+	}
+	if !x.Blocking && vf.fc != nil && vf.fc.Flags["delivers"] && len(st.frames) == 1 {
+		for _, s := range x.States {
+			if s.Dir == types.SendOnly {
+				// a send in a select with a default branch is skipped whenever the receiver is not ready: the value is dropped
+				st.check("delivery", fmt.Sprintf("select#%d", vf.eng.info(fr.fn).chanOrd[x]), "C11", "a value handed to this function for delivery may be dropped: send inside a select with a default branch", st.pos(x), "false")
+			}
+		}
 	}
 	if x.Blocking && vf.fc != nil && vf.fc.Flags["nonblocking"] && len(st.frames) == 1 {
 		st.check("nonblock", fmt.Sprintf("select#%d", vf.eng.info(fr.fn).chanOrd[x]), "C12", "blocking select in a function declared nonblocking", st.pos(x), "false")
